@@ -1258,10 +1258,19 @@ void UniCompiler::emit_3i(UniOpRRR op, const Gp& dst, const Operand_& src1_, con
       }
 
       case UniOpRRR::kSBound: {
-        cc->xor_(dst, dst);
-        cc->cmp(a, b);
-        cc->cmovbe(dst, a);
-        cc->cmovg(dst, b);
+        if (dst_is_a) {
+          Gp zero = new_similar_reg(dst, "@zero");
+          cc->xor_(zero, zero);
+          cc->cmp(dst, b);
+          cc->cmova(dst, zero);
+          cc->cmovg(dst, b);
+        }
+        else {
+          cc->xor_(dst, dst);
+          cc->cmp(a, b);
+          cc->cmovbe(dst, a);
+          cc->cmovg(dst, b);
+        }
         return;
       }
 
